@@ -842,6 +842,13 @@ def skel_run_run : List String := [
   "if v5.MaxIterationsReached() {",
   "v0.output.Display(v0.result.MaxIterationsReached())",
   "}",
+  "case <-time.After(v0.waitForCompletionTimeout):",
+  "if v5.MaxIterationsReached() {",
+  "v0.output.Display(v0.result.MaxIterationsReached())",
+  "}",
+  "v0.output.Display(ui.WarningMessage{",
+  "Message: fmt.Sprintf(\"Active tests not completed after %s. Stopping...\", v0.waitForCompletionTimeout.String()),",
+  "})",
   "}",
   "}"
 ]
@@ -1675,7 +1682,11 @@ def skel_file_runStage : List String := [
   "defer v6()",
   "if v3.UsersConcurrency > 0 {",
   "v7 := v2.NewContinuousPool(v3.UsersConcurrency)",
-  "v7.Start(v5)",
+  "v8 := v7.Start(v5)",
+  "<-v8.Done()",
+  "if v0.Err() != nil || v2.MaxIterationsReached() {",
+  "return",
+  "}",
   "select {",
   "case <-v0.Done():",
   "return",
@@ -1684,17 +1695,17 @@ def skel_file_runStage : List String := [
   "}",
   "return",
   "}",
-  "v8 := make(chan struct{})",
+  "v9 := make(chan struct{})",
   "go func() {",
-  "defer close(v8)",
-  "v9 := api.NewIterationWorker(v3.IterationDuration, v3.Rate)",
-  "v9(v5, v1, v2, v4)",
+  "defer close(v9)",
+  "v10 := api.NewIterationWorker(v3.IterationDuration, v3.Rate)",
+  "v10(v5, v1, v2, v4)",
   "}()",
   "select {",
   "case <-v0.Done():",
-  "<-v8",
+  "<-v9",
   "return",
-  "case <-v8:",
+  "case <-v9:",
   "time.Sleep(safeDurationBeforeNextStage)",
   "}",
   "}"
@@ -2326,9 +2337,9 @@ def skel_users_Builder : List String := [
   "v5 options.RunOptions,",
   ") {",
   "v6 := v4.NewContinuousPool(v5.Concurrency)",
-  "v6.Start(v2)",
+  "v7 := v6.Start(v2)",
   "select {",
-  "case <-v2.Done():",
+  "case <-v7.Done():",
   "case <-v4.WaitForCompletion():",
   "}",
   "}",
@@ -2347,7 +2358,7 @@ def skel_users_NewWorker : List String := [
   "func NewWorker(v0 int) api.WorkTriggerer {",
   "return func(v1 context.Context, _ *ui.Output, v2 *workers.PoolManager, _ options.RunOptions) {",
   "v3 := v2.NewContinuousPool(v0)",
-  "v3.Start(v1)",
+  "_ = v3.Start(v1)",
   "<-v2.WaitForCompletion()",
   "}",
   "}"
@@ -2439,7 +2450,7 @@ def skel_active_Failed : List String := [
 ]
 
 def skel_cpool_Start : List String := [
-  "func (v0 *ContinuousPool) Start(v1 context.Context) {",
+  "func (v0 *ContinuousPool) Start(v1 context.Context) context.Context {",
   "v2, v3 := context.WithCancel(v1)",
   "v0.workerCtxCancel = v3",
   "if v2.Err() != nil {",
@@ -2455,6 +2466,7 @@ def skel_cpool_Start : List String := [
   "for _, v5 := range v0.iterationStatePool {",
   "go v0.startWorker(v5, &v4)",
   "}",
+  "return v2",
   "}"
 ]
 
@@ -2846,6 +2858,7 @@ def skel_t_handlePanic : List String := [
   "v2, v3 := v1.(error)",
   "switch {",
   "case v3 && v2 == errFailNow:",
+  "v0.Fail()",
   "return",
   "case v3:",
   "v4 := debug.Stack()",
